@@ -3,6 +3,7 @@ import ScVerif.C04.Pull
 import ScVerif.C04.Bus
 import ScVerif.C04.Stall
 import ScVerif.C04.Config
+import ScVerif.C04.Waste
 /-!
 Driver handler for C04 (stateful): a C01 resource plus its bus (`Bus.lean`): the listeners of the
 backpressured subscriptions opened so far.  `unsub` only marks a listener dead (its context is
@@ -410,13 +411,45 @@ def handleBase (st : DrvState) (toks : List String) : Option (DrvState × String
             s!"val={showOptMsg o.val} err={showErr o.err} | " ++ deliverV cfg st.eqv (live st.subs) o.events)
     | _, _ => none
 
-/-- `stallw w=<upd|add|del> rname=<k> …(the write's keys)`: the write is started while the forwarder of
+/-- a waste record as the driver sees it: (id, area) -/
+abbrev WRec := String × String
+
+def parseWRec? (s : String) : Option WRec :=
+  match s.splitOn ":" with
+  | [i, a] => some (i, a)
+  | _ => none
+
+def parseWRecs? (s : String) : Option (List WRec) :=
+  if s = "" then some [] else (s.splitOn ",").mapM parseWRec?
+
+def showWRec (r : WRec) : String := r.1 ++ ":" ++ r.2
+
+/-- the read mask of a `PullWasteRecordsRequest` on the two fields the driver carries -/
+def wProj (rm : Option String) (r : WRec) : WRec :=
+  match rm with
+  | some "id" => (r.1, "")
+  | some "area" => ("", r.2)
+  | _ => r
+
+/-- `waste [hist=<id:area,…>] val=<id:area> [later=<id:area,…>] [rm=<id|area>] [uo]` (stateless): the stream of a
+`PullWasteRecords` opened on the wastepb model whose history is `hist` and whose value is `val`, the bus
+handing it `later` afterwards (`Waste.lean`, `wasteStream`).
+
+`stallw w=<upd|add|del> rname=<k> …(the write's keys)`: the write is started while the forwarder of
 the held subscription `rname` is full, so its `Send` waits at that listener (no deadline); then the
 consumer of `rname` receives again: it is given what its forwarder held, the forwarder takes the write's
 change and the `Send` goes on to the later listeners.  Observably: `resume rname`, then the write on a
 bus where nobody is stalled.  Answer: `<resume answer> || <write answer>`. -/
 def handleOpt (st : DrvState) (toks : List String) : Option (DrvState × String) :=
   match toks with
+  | "waste" :: rest => do
+    let kv ← parseKV rest
+    let hist ← parseWRecs? ((kvGet kv "hist").getD "")
+    let val ← parseWRec? ((kvGet kv "val").getD ":")
+    let later ← parseWRecs? ((kvGet kv "later").getD "")
+    let rm := kvGet kv "rm"
+    if !(rm == none || rm == some "id" || rm == some "area") then none
+    pure (st, "stream=" ++ showList ((wasteStream (wProj rm) (kvHas kv "uo") ⟨hist, val⟩ later).map showWRec))
   | "stallw" :: rest => do
     let kv ← parseKV rest
     let w ← kvGet kv "w"
